@@ -13,7 +13,7 @@ import (
 
 func init() {
 	register("C03", runC03, propMeta{
-		Explanation: "Decides effect confinement and the conversion tables behind faithful access to injected data, for all programs: (I1) in DataContext every read, write or call through the local store is reachable only over the miss edge of a lookup of the same key in the injected table, so an injected name always wins; (I2) reflect mutators (Set, SetInt, SetUint, SetFloat, SetString, SetBool, SetComplex, SetMapIndex) occur only in core.SetAttributeValue, core.SetSingleValue and DataContext.SetMapVarValue, which are reachable only from Assignment.Evaluate and the key binding of ForRangeStmt; reflect Call occurs only in ExecFunc and InvokeFunction; the injected table is written only by Add/PluginLoader/Del — hence reads, comparisons and calls leave injected data untouched; (I3) conversion tables, row by row: ParamsTypeChange converts parameter i against In(i) of the same index, for each of the 12 numeric kinds to exactly that kind, reading the argument with the accessor of its own class tag (36 rows); getNumType maps prefix to tag; GetWantedValue converts to the target kind with the accessor of the target's class (12 rows); SetAttributeValue and SetSingleValue use the setter of the target's kind group, read the source with the accessor of the source's class, and store a signed or float source into an unsigned target only under a `>= 0` test; (I4) Args.Evaluate stores the i-th evaluated argument at index i and GetRawTypeValue returns element 0; (I5) every MapIndex result returned by MapVar.Evaluate is guarded by IsValid() with reflect.Zero of the element type on the other edge. ParamsTypeChange converts every declared parameter: its loop counts from 0 to NumIn() of the same function type. (I8) the field read by GetStructAttributeValue and set by SetAttributeValue is FieldByName(the given name) of the given object, or FieldByIndex with a path found for that name on the object's own reflect.Type (tables keyed by the Type accepted, by a printed name not). Not decided: reflect's own semantics, whether a particular value is representable, user functions. A call node yields the injected call's result: every return of FunctionCall / MethodCall / ThreeLevelCall.Evaluate hands on the first result of DataContext.ExecFunc / ExecMethod / ExecThreeLevel unchanged, so the name is looked up in the injected table on every call. What Assignment.Evaluate hands to SetMapVarValue / SetValue are the name and key fields of its own node, and a compound form reads the current value through that same node (target as compiled). In the three call nodes the only way to a return that avoids the Exec* call is the failure of the argument evaluation (call-always-made).",
+		Explanation: "Decides effect confinement and the conversion tables behind faithful access to injected data, for all programs: (I1) in DataContext every read, write or call through the local store is reachable only over the miss edge of a lookup of the same key in the injected table, so an injected name always wins; (I2) reflect mutators (Set, SetInt, SetUint, SetFloat, SetString, SetBool, SetComplex, SetMapIndex) occur only in core.SetAttributeValue, core.SetSingleValue and DataContext.SetMapVarValue, which are reachable only from Assignment.Evaluate and the key binding of ForRangeStmt; reflect Call occurs only in ExecFunc and InvokeFunction; the injected table is written only by Add/PluginLoader/Del — hence reads, comparisons and calls leave injected data untouched; (I3) conversion tables, row by row: ParamsTypeChange converts parameter i against In(i) of the same index, for each of the 12 numeric kinds to exactly that kind, reading the argument with the accessor of its own class tag (36 rows); getNumType maps prefix to tag; GetWantedValue converts to the target kind with the accessor of the target's class (12 rows); SetAttributeValue and SetSingleValue use the setter of the target's kind group, read the source with the accessor of the source's class, and store a signed or float source into an unsigned target only under a `>= 0` test; (I4) Args.Evaluate stores the i-th evaluated argument at index i and GetRawTypeValue returns element 0; (I5) every MapIndex result returned by MapVar.Evaluate is guarded by IsValid() with reflect.Zero of the element type on the other edge. ParamsTypeChange converts every declared parameter: its loop counts from 0 to NumIn() of the same function type. (I8) the field read by GetStructAttributeValue and set by SetAttributeValue is FieldByName(the given name) of the given object, or FieldByIndex with a path found for that name on the object's own reflect.Type (tables keyed by the Type accepted, by a printed name not). Not decided: reflect's own semantics, whether a particular value is representable, user functions. A call node yields the injected call's result: every return of FunctionCall / MethodCall / ThreeLevelCall.Evaluate hands on the first result of DataContext.ExecFunc / ExecMethod / ExecThreeLevel unchanged, so the name is looked up in the injected table on every call. What Assignment.Evaluate hands to SetMapVarValue / SetValue are the name and key fields of its own node, and a compound form reads the current value through that same node (target as compiled). In the three call nodes the only way to a return that avoids the Exec* call is the failure of the argument evaluation (call-always-made). The vector Args.Evaluate hands on is made in that call (make, a literal, or appends to one): ParamsTypeChange converts it in place, so a vector kept on the node would carry one callee's conversions into the next call.",
 		Assumptions: []string{"reflect accessors/setters behave as documented"},
 		Trusted:     commonTrusted,
 	})
@@ -273,6 +273,23 @@ func runC03(c *Ctx) {
 			}
 		})
 		c.Check("I4-positional", "Args.Evaluate#vector-length", okLen, f.Pos(), "the argument vector must have len(ArgList) elements")
+		// the vector handed to the caller is made in this call: ParamsTypeChange converts its elements in
+		// place, so a vector kept by the node (or shared between calls) carries the values converted
+		// for one callee into the next call
+		okFresh, whyFresh, nRet := true, "", 0
+		eachInstr(f, func(in ssa.Instruction) {
+			r, isR := in.(*ssa.Return)
+			if !isR || len(r.Results) != 2 {
+				return
+			}
+			nRet++
+			for _, pv := range x.PossibleValues(r.Results[0]) {
+				if !madeInThisCall(x, pv.V, 0) {
+					okFresh, whyFresh = false, x.Describe(pv.V)
+				}
+			}
+		})
+		c.Check("I4-positional", "Args.Evaluate#vector-made-for-this-call", okFresh && nRet > 0, f.Pos(), "the argument vector returned must be a slice made in this call (it is converted in place for the callee): %s is returned", orStr(whyFresh, "nothing"))
 	}
 	if f := c.MustFn("I4-positional", "internal/core", "", "GetRawTypeValue"); f != nil {
 		x := c.Index(f)
@@ -1700,4 +1717,41 @@ func isZeroReflectValue(v ssa.Value) bool {
 		}
 	}
 	return true
+}
+
+// madeInThisCall: v is a slice allocated by the function itself (make, a literal, nil, or appends
+// to one of those) and not memory that outlives the call.
+func madeInThisCall(x *FnIndex, v ssa.Value, depth int) bool {
+	if depth > 6 {
+		return false
+	}
+	switch t := x.Origin(v).(type) {
+	case *ssa.MakeSlice:
+		return true
+	case *ssa.Const:
+		return t.IsNil()
+	case *ssa.Slice:
+		if a, ok := x.Origin(t.X).(*ssa.Alloc); ok {
+			_ = a
+			return true
+		}
+		return madeInThisCall(x, t.X, depth+1)
+	case *ssa.Call:
+		if args, ok := builtinCall(t, "append"); ok {
+			for _, pv := range x.PossibleValues(args[0]) {
+				if !madeInThisCall(x, pv.V, depth+1) {
+					return false
+				}
+			}
+			return true
+		}
+	case *ssa.Phi:
+		for _, e := range t.Edges {
+			if !madeInThisCall(x, e, depth+1) {
+				return false
+			}
+		}
+		return true
+	}
+	return false
 }
